@@ -37,7 +37,12 @@ def main():
     head = sh(["git", "-C", "/repo", "log", "--format=%h", "-1"])[1].strip()
     res = {"property": prop, "candidate": cand, "agent_meta": meta, "ran": [], "repo_commit": head}
     try:
-        rc, out = sh(["git", "-C", "/repo", "worktree", "add", "-q", "--detach", wt, "HEAD"])
+        # SEED_BASE=<commit>: try the change on the commit it was written for (the checks must then come from a copy of /verif
+        # whose model describes that commit); default: /repo's HEAD
+        base = os.environ.get("SEED_BASE") or "HEAD"
+        if base != "HEAD":
+            res["repo_commit"] = head = sh(["git", "-C", "/repo", "log", "--format=%h", "-1", base])[1].strip()
+        rc, out = sh(["git", "-C", "/repo", "worktree", "add", "-q", "--detach", wt, base])
         assert rc == 0, out
         demo_src = open(os.path.join(cand, "demo_test.go")).read()
         m = re.search(r"([\w./-]+_test\.go)", "\n".join(demo_src.split("\n")[:15]))
